@@ -8,6 +8,8 @@
 //!          unsub                                 the outer subscription
 //!          gunsub <key>                          the probe of that group unsubscribes
 //!          q kc                                  `kc=<n>`: calls of the key function so far
+//!          join                                  a silent neighbour subscribes the SOURCE subject (never finished, never
+//!                                                unsubscribed); gjoin <key>: one joins the subject of that group (if announced)
 //!          iter <k>                              (C16) a COLD producer instead of the hot subject:
 //!                                                `from_iter(counting 0..k).group_by(key)[.take(n)]` is subscribed and
 //!                                                runs inside this event; prints `o=<log> pulls=<items pulled>`
@@ -79,6 +81,17 @@ impl Iterator for CountIter {
   }
 }
 
+/// the silent neighbour of events `join` / `gjoin`
+struct Mute;
+impl Observer<Val, i64> for Mute {
+  fn next(&mut self, _v: Val) {}
+  fn error(self, _e: i64) {}
+  fn complete(self) {}
+  fn is_finished(&self) -> bool {
+    false
+  }
+}
+
 fn fmt_event(mut log: Vec<String>, terminal: bool) -> String {
   if terminal {
     let n = log.iter().take_while(|t| t.starts_with('g')).count();
@@ -93,10 +106,12 @@ macro_rules! impl_suite {
       log: Log,
       skip: Vec<Val>,
       handles: Arc<Mutex<Vec<(Val, Option<$subscriber<GProbe>>)>>>,
+      groups: Arc<Mutex<Vec<KeyObservable<Val, $subject>>>>,
     }
     impl Observer<KeyObservable<Val, $subject>, i64> for $probe {
       fn next(&mut self, g: KeyObservable<Val, $subject>) {
         let key = g.key.clone();
+        self.groups.lock().unwrap().push(g.clone());
         self.log.lock().unwrap().push(format!("G{}", key));
         if !self.skip.contains(&key) {
           let u = g.actual_subscribe(GProbe { key: key.clone(), log: self.log.clone() });
@@ -121,7 +136,8 @@ macro_rules! impl_suite {
       let skip: Vec<Val> =
         if case.has("skip") { case.field("skip").iter().map(Val::parse).collect() } else { vec![] };
       let src: $subject = <$subject>::default();
-      let probe = $probe { log: log.clone(), skip, handles: handles.clone() };
+      let groups = Arc::new(Mutex::new(vec![]));
+      let probe = $probe { log: log.clone(), skip, handles: handles.clone(), groups: groups.clone() };
       // calls of the key function (event `q kc`): exactly one per item that reaches group_by
       let kc = Arc::new(Mutex::new(0usize));
       let kc2 = kc.clone();
@@ -163,7 +179,7 @@ macro_rules! impl_suite {
             let keyf2 = fn1(case.field("key")[0].atom());
             let skip2: Vec<Val> =
               if case.has("skip") { case.field("skip").iter().map(Val::parse).collect() } else { vec![] };
-            let probe2 = $probe { log: log.clone(), skip: skip2, handles: handles.clone() };
+            let probe2 = $probe { log: log.clone(), skip: skip2, handles: handles.clone(), groups: groups.clone() };
             // (from_iter never errors: its error type is Infallible; the probes' error type is i64)
             let grouped2 = observable::from_iter(it)
               .on_error_map(|_e: std::convert::Infallible| 0i64)
@@ -195,6 +211,16 @@ macro_rules! impl_suite {
           "unsub" => {
             if let Some(u) = unsub.take() {
               u();
+            }
+          }
+          "join" => {
+            let _ = src.clone().actual_subscribe(Mute);
+          }
+          "gjoin" => {
+            let key = Val::parse(&ev[1]);
+            let g = groups.lock().unwrap().iter().find(|g| g.key == key).cloned();
+            if let Some(g) = g {
+              let _ = g.actual_subscribe(Mute);
             }
           }
           "gunsub" => {
